@@ -11,6 +11,26 @@ struct OpSpec
   int pad;
 };
 
+// a script given as a number in base 5: digits 1 = small through A, 2 = near-capacity through A, 3 = small through B,
+// 4 = flush_log(); most significant digit first; 0 digits are skipped
+static std::vector<OpSpec> decode_script(long code, int large)
+{
+  std::vector<OpSpec> rev;
+  while (code > 0)
+  {
+    switch (code % 5)
+    {
+    case 1: rev.push_back({0, 0}); break;
+    case 2: rev.push_back({0, large}); break;
+    case 3: rev.push_back({1, 0}); break;
+    case 4: rev.push_back({-1, 0}); break;
+    default: break;
+    }
+    code /= 5;
+  }
+  return std::vector<OpSpec>(rev.rbegin(), rev.rend());
+}
+
 static std::vector<std::vector<OpSpec>> shape(long s, long large)
 {
   int const L = static_cast<int>(large);
@@ -42,6 +62,13 @@ static Scenario make_c03(std::map<std::string, long> const& cfg)
   };
   long const large = get("large", 180);
   auto sh = std::make_shared<std::vector<std::vector<OpSpec>>>(shape(get("shape", 0), large));
+  if (get("shape", 0) < 0)
+  {
+    // systematically enumerated scripts instead of a hand-picked shape
+    sh->clear();
+    for (char const* k : {"t1", "t2", "t3"})
+      if (get(k, 0) > 0) sh->push_back(decode_script(get(k, 0), static_cast<int>(large)));
+  }
   auto loggers = std::make_shared<std::vector<L*>>();
   sc.setup = [loggers](World& w, Scenario const& s)
   {
